@@ -138,6 +138,8 @@ func (ex *Exec) zero(t types.Type) Value {
 			return BV(w, 0)
 		}
 		switch {
+		case u.Kind() == types.Invalid:
+			return nil // unused component of a range tuple
 		case u.Info()&types.IsBoolean != 0:
 			return TFalse
 		case u.Info()&types.IsString != 0:
